@@ -101,24 +101,24 @@ def iterateChunksProd : List Nat → List Nat → List Chunk
   | _, _ => [[]]
 
 /-- Error classification of the public entry point. -/
-inductive IterErr | valueError | indexError
+inductive IterErr | valueError
   deriving Repr, BEq
 
-/-- `iterate_chunks(shape, chunk_shape, n_max)` including argument checking; `ndim = 0` with a
-non-empty product yields one empty chunk and then the code raises IndexError. -/
+/-- `iterate_chunks(shape, chunk_shape, n_max)` including argument checking.  `ndim = 0` (a 0-d
+array: exactly one element): the code yields the single empty chunk `()` and stops (explicit branch
+since fix `C04h`; the pinned tree yielded it and then raised `IndexError` from `start_index[0]`) —
+which is what `iterateChunksLoop [] [] = [[]]` and the product form `iterateChunksProd [] [] = [[]]`
+give, so the `ndim = 0` case needs no branch of its own here. -/
 def iterateChunks (shape : List Nat) (chunkShape : Option (List Nat)) (nMax : Option Nat) :
     Except IterErr (List Chunk) :=
   if shape.foldl (· * ·) 1 = 0 then .ok [] else
   match chunkShape, nMax with
   | none, none => .error .valueError
   | some _, some _ => .error .valueError
-  | none, some n =>
-    if shape.length = 0 then .error .indexError
-    else .ok (iterateChunksLoop shape (findChunkShape shape n))
+  | none, some n => .ok (iterateChunksLoop shape (findChunkShape shape n))
   | some cs, none =>
     if cs.length ≠ shape.length then .error .valueError
     else if (cs.zip shape).any (fun p => p.1 > p.2) then .error .valueError
-    else if shape.length = 0 then .error .indexError
     else .ok (iterateChunksLoop shape cs)
 
 /-! ## combine_slices (on normalised triples, positive steps) -/
